@@ -773,6 +773,10 @@ class PyExec:
                      ast.Eq: a == b, ast.NotEq: a != b}[type(op)])
 
     def binop(self, st, op, a, b, node):
+        if isinstance(op, ast.Mult):
+            for x, y in ((a, b), (b, a)):
+                if isinstance(y, Ref) and isinstance(st.heap[y.id], PList) and not isinstance(x, Ref):
+                    return st.new(PList(st.heap[y.id].items * self.cidx(x)))
         if isinstance(a, Ref) or isinstance(b, Ref):
             return self.nd_binop(st, op, a, b, node)
         if isinstance(a, str) and isinstance(op, ast.Mod):
@@ -1103,8 +1107,15 @@ class PyExec:
             items = self.iterate(st, args[0]) if args else []
             return st.new(PList(items)) if name == "list" else tuple(items)
         if name == "isinstance":
-            v = args[0]
-            raise CheckerError("isinstance on symbolic value")
+            v, t = args[0], args[1]
+            tn = t.name if isinstance(t, (ModuleRef, Builtin)) else None
+            if tn in ("numpy.ndarray", "np.ndarray"):
+                return isinstance(v, Ref) and isinstance(st.heap[v.id], NDArr)
+            if tn == "float" and is_sym(v):
+                return v.sort() == z3.RealSort()
+            if tn == "int" and is_sym(v):
+                return v.sort() == z3.IntSort()
+            raise CheckerError("isinstance(%r, %r) not modelled" % (v, tn))
         if name == "print":
             return None
         if name.startswith("list.append@"):
@@ -1164,6 +1175,9 @@ class PyExec:
                 dt = kwargs.get("dtype", "double")
                 zero = z3.IntVal(0 if short != "ones" else 1) if dt in ("int64", "intc", "int") else z3.RealVal(0 if short != "ones" else 1)
                 return st.new(NDArr(shp, [zero] * tot, dt))
+            if short == "zeros_like":
+                a = self.to_nd(st, args[0])
+                return st.new(NDArr(a.shape, [z3.RealVal(0)] * len(a.flat), a.dtype))
             if short == "eye" or short == "identity":
                 k = self.cidx(args[0])
                 dt = kwargs.get("dtype", "double")
